@@ -211,6 +211,19 @@ impl OffsetsBase {
         offset
     }
 
+    /// Return the linear index, in the tensor's element sequence, of the
+    /// element that will be yielded by the next call to `next`.
+    fn linear_index(&self) -> usize {
+        let mut index = 0;
+        let mut shape_product = 1;
+        for dim in (0..self.ndim()).rev() {
+            let pos = self.pos(dim);
+            index += pos.index() * shape_product;
+            shape_product *= pos.size();
+        }
+        index
+    }
+
     /// Truncate this iterator so that it yields at most `len` elements.
     fn truncate(&mut self, len: usize) {
         // We adjust `self.len` here but not any of the iteration positions.
@@ -303,7 +316,11 @@ impl DoubleEndedIterator for OffsetsBase {
 
         // This is inefficient compared to forward iteration, but that's OK
         // because reverse iteration is not performance critical.
-        let index = self.len - 1;
+        //
+        // The remaining elements start at the current front position, which
+        // is not the start of the tensor if the iterator has been advanced
+        // from the front or is the right half of a split.
+        let index = self.linear_index() + self.len - 1;
         let offset = self.offset_from_linear_index(index);
         self.len -= 1;
 
